@@ -128,7 +128,11 @@ static void set_position(struct context_data *ctx, int pos, int dir)
 				if (pos > p->scan[seq].ord) {
 					f->end_point = 0;
 				} else {
-					f->num_rows = mod->xxp[pat]->rows;
+					/* f->num_rows belongs to the order being played: it
+					 * is set by next_order() when the reposition happens
+					 * (or by xmp_set_row). Writing the target's row count
+					 * here left a stale value behind when a later call
+					 * moved the target back onto the current order. */
 					f->end_point = p->scan[seq].num;
 					f->jumpline = 0;
 				}
